@@ -86,6 +86,7 @@ type S struct {
 	objClock map[interface{}]vc
 	Races    []string
 	deadlockInfo string
+	skewed   bool
 }
 
 var cur *S
@@ -296,6 +297,9 @@ func (s *S) reschedule(self *thread) {
 		if canFire && c == len(en) {
 			// firing a timer while some thread could run is a deviation too (charged above when
 			// self is ready; when only others are ready the choice is free)
+			if len(en) > 0 {
+				s.skewed = true // virtual time advances although a thread could run
+			}
 			s.fire(timer)
 			continue
 		}
@@ -356,6 +360,10 @@ func (s *S) X() *mc.X { return s.x }
 
 // Preemptions returns the number of preemptive switches so far.
 func (s *S) Preemptions() int { return s.preempts }
+
+// TimeSkewed reports whether a timer ever fired while some thread was runnable, i.e.
+// whether runnable threads were starved for a positive amount of virtual time.
+func (s *S) TimeSkewed() bool { return s.skewed }
 
 // DeadlockInfo describes the thread states at a deadlock verdict.
 func (s *S) DeadlockInfo() string { return s.deadlockInfo }
